@@ -30,8 +30,8 @@ META = dict(
     "replayed state; every transition is executed on the implementation and the model (trace validated)",
     assumptions=["elements are hashable ints / objects with value equality", "single-threaded use"],
     bounds=dict(
-        quick="fixpoint over all states; argument lists <=2 elements; LRU capacity {1,2} x threshold {0,.5,1}",
-        thorough="fixpoint over all states; argument lists <=3 elements; two-argument update/union/intersection/difference; LRU capacity {1,2,3}",
+        quick="fixpoint over all states; argument lists <=2 elements; two-argument calls with lists <=1; LRU capacity {1,2} x threshold {0,.5,1}",
+        thorough="fixpoint over all states; argument lists <=3 elements; two-argument update/union/intersection/difference with lists <=2; LRU capacity {1,2,3}",
     ),
 )
 
@@ -219,8 +219,9 @@ def oset_ops(tier):
                 if list(c) != uniq(c):
                     continue
                 ops.append((name, [(kind, c)], None))
-    if tier == "thorough":
-        small = list(lists_upto(2))
+    if True:
+        # several iterables in one call (the set must be kept in step with the list *between* them)
+        small = list(lists_upto(1 if tier == "quick" else 2))
         for name in ("update", "union", "intersection", "difference", "intersection_update", "difference_update"):
             for k1, k2 in (("list", "set"), ("iter", "tuple"), ("oset", "list")):
                 for c1 in small:
